@@ -54,6 +54,8 @@ structure TyInfo where
   /-- the object the setup package's scope holds under this type's name is this very type
   (`scope.Lookup(typ.Obj().Name()) == typ.Obj()`) -/
   inScope : Bool := false
+  /-- an instantiated generic type (`Named.TypeArgs().Len() > 0`) -/
+  hasTypeArgs : Bool := false
   /-- element of a pointer or slice -/
   elem : TyId := 0
   /-- `Underlying()` is a `*types.Struct` -/
@@ -192,6 +194,8 @@ def typeName : Nat → TyId → String
     | .pointer => "*" ++ typeName fuel (env.ty t).elem
     | .basic => (env.ty t).name
     | .named =>
+      -- an instantiated generic type is written with its type arguments: `Box[int]`
+      if (env.ty t).hasTypeArgs then qualifyTemplate env.imports (env.ty t).qstr else
       match (env.ty t).pkgPath with
       | none => (env.ty t).name
       | some p =>
